@@ -112,7 +112,9 @@ class FormatExtractor(string.Formatter):
         have an empty field and a number as fields. A field is an expression here, never an index into arguments.
         """
         parts = []
-        for literal, field_name, _, _ in self.parse(format_string):
+        # the whole template is taken apart before anything is evaluated: a template that breaks after a few good fields
+        # is logged as it is - none of its fields may then have run in the application, or be recorded as evaluated
+        for literal, field_name, _, _ in list(self.parse(format_string)):
             parts.append(literal)
             if field_name is not None:
                 parts.append(self.get_field(field_name, args, kwargs)[0])
